@@ -277,7 +277,10 @@ func (s *IndexedState) Add(ctx *Context, id string, x Map) (string, error) {
 	// Whatever was cached for this id is stale now.
 	s.uncacheRule(id)
 
-	js, err := json.Marshal(&x)
+	// Store what we hold in memory (with an absolute 'expires'), not
+	// what we were given (which might have a relative 'ttl' that would
+	// start again when the location is loaded).
+	js, err := json.Marshal(s.IdToFact[id])
 	if err != nil {
 		return "", err
 	}
